@@ -1,0 +1,6 @@
+//go:build !verif
+
+package opcua
+
+// verifPoint is a no-op unless the package is built with -tags verif.
+func verifPoint(point string, c *Client, kv ...any) {}
